@@ -822,7 +822,12 @@ pub fn gen_case(seed: u64, idx: u64, oversize: bool) -> C5Case {
         pack_size = 3;
         let a: Vec<usize> = (0..rng.range(2, 4)).map(|_| rng.range(5, 120) as usize).collect();
         let mut b: Vec<usize> = (0..rng.range(2, 4)).map(|_| rng.range(5, 120) as usize).collect();
-        b.insert(rng.below(b.len() as u64) as usize, rng.range(400, 900) as usize);
+        // even sub-cases: the big contig is the one that CLOSES a sync round (global position
+        // divisible by pack_size): push() queues the round's zero-size tokens first and then this
+        // contig, so it meets a queue that holds nothing but tokens; odd sub-cases: anywhere
+        let pos = if idx % 2 == 0 { (pack_size - 1 + pack_size - a.len() % pack_size) % pack_size } else { rng.below(b.len() as u64) as usize };
+        let pos = pos.min(b.len());
+        b.insert(pos, rng.range(400, 900) as usize);
         sizes = vec![a, b];
     } else if single_file {
         pack_size = rng.range(3, 20) as usize;
